@@ -1,5 +1,6 @@
 CONSTANTS
   Mod <- TheMod
+  NameCodes <- TheNames
   ByteExact = TRUE
 INIT TInit
 NEXT TNext
